@@ -224,3 +224,42 @@ def perturb(path):
     out.add(path.replace('/', '//', 1))
     out.add(path + '/a')
     return out
+
+
+def consume(rule, path):
+    """Like match(), but also returns posmap: posmap[k] = number of path characters consumed once the first k
+    characters of pattern(rule) are consumed (k = 0..len(pattern)).  Returns (values, posmap) or None."""
+    pos = 0
+    n = len(path)
+    out = []
+    posmap = [0]
+    for i, atom in enumerate(rule):
+        if atom[0] == 'L':
+            t = atom[1]
+            if not path.startswith(t, pos):
+                return None
+            for _ in t:
+                pos += 1
+                posmap.append(pos)
+            continue
+        if pos >= n:
+            return None
+        if atom[2] is None:
+            j = path.find(SEP, pos)
+            if j < 0:
+                j = n
+            out.append((atom[1], path[pos:j]))
+            pos = j
+        else:
+            mask, conv = _mask_conv(rule, i)
+            rx = _re_cache.get(mask)
+            if rx is None:
+                rx = _re_cache[mask] = re.compile(mask)
+            m = rx.match(path[pos:])
+            if not m:
+                return None
+            v = m.group()
+            out.append((atom[1], conv(v) if conv else v))
+            pos += m.end()
+        posmap.append(pos)
+    return (out, posmap) if pos == n else None
